@@ -39,6 +39,10 @@ def gen_cases(tier, seed):
     g = grid(tier)
     for i in range(len(g)):
         yield {'k': 'window', 'start': g[i], 'tier': tier}
+        if i % 12 == 5:   # the same lookups in a process whose local time zone is far from UTC (arguments stay naive UTC)
+            yield {'k': 'window', 'start': g[i], 'tier': tier, 'tz': 'Asia/Tokyo'}
+            yield {'k': 'window', 'start': g[i], 'tier': tier, 'tz': 'America/Los_Angeles'}
+    yield {'k': 'biglimit', 'tier': tier}
     for now in sorted(set(REC_MIN + [g[-1], 24 * 60 + 1, 47 * 60 + 59])):
         yield {'k': 'now', 'now': now, 'tier': tier}
     # two lookups with different windows on ONE cassette object, consumed interleaved (lookups are lazy iterators)
@@ -155,6 +159,49 @@ def build_bucket(upto=None):
 
 
 def run_case(case):
+    import os
+    import time as _time
+    old_tz = os.environ.get('TZ')
+    if case.get('tz'):
+        os.environ['TZ'] = case['tz']
+        _time.tzset()
+    try:
+        return _run_case(case)
+    finally:
+        if case.get('tz'):
+            if old_tz is None:
+                os.environ.pop('TZ', None)
+            else:
+                os.environ['TZ'] = old_tz
+            _time.tzset()
+
+
+def _biglimit(viols):
+    """Limits above the small numbers: 300 recordings on each of two days of the window."""
+    from playback.tape_cassettes.s3.s3_tape_cassette import S3TapeCassette
+    fakes3.new_store(lambda: pytz.utc.localize(_clock[0]))
+    w = S3TapeCassette('bucket', key_prefix='p', read_only=False)
+    total = 0
+    for day in (0, 1):
+        for i in range(300):
+            _clock[0] = D0 + datetime.timedelta(days=day, hours=6, seconds=i)
+            r = w.create_new_recording('Op')
+            r.set_data('k', i)
+            w.save_recording(r)
+            total += 1
+    _clock[0] = D0 + datetime.timedelta(days=2)
+    reader = S3TapeCassette('bucket', key_prefix='p', read_only=True)
+    n = 0
+    for limit in (256, 257, 300, 301, 599, 600, 1000):
+        for rnd in (False, True):
+            n += 1
+            got = list(reader.iter_recording_ids('Op', start_date=D0, end_date=D0 + datetime.timedelta(days=2), limit=limit, random_results=rnd))
+            if len(got) != min(limit, total) or len(set(got)) != len(got):
+                viols.append(viol('limit-size:large', 'limit %d (random=%s) over %d matching recordings on two days' % (limit, rnd, total), min(limit, total), (len(got), len(set(got)))))
+    return n, n
+
+
+def _run_case(case):
     _install()
     from playback.tape_cassettes.s3.s3_tape_cassette import S3TapeCassette
     viols = []
@@ -197,6 +244,8 @@ def run_case(case):
                         nontrivial += 1
     elif case['k'] == 'long':
         n, nontrivial = _long(case, viols)
+    elif case['k'] == 'biglimit':
+        n, nontrivial = _biglimit(viols)
     elif case['k'] == 'repeat':
         from playback.tape_cassettes.s3.s3_tape_cassette import S3TapeCassette as S3C
         import pytz
@@ -230,7 +279,7 @@ def run_case(case):
     uniq = {}
     for v in viols:
         uniq.setdefault(v['sig'], v)
-    return dict(viol=list(uniq.values()), obs=repr((case.get('start'), case.get('now'), len(viols))), nontrivial=nontrivial > 0, evals=n, transitions=n)
+    return dict(viol=list(uniq.values()), obs=repr((case.get('start'), case.get('now'), case.get('tz'), case.get('cat'), len(viols))), nontrivial=nontrivial > 0, evals=n, transitions=n)
 
 
 def _fmt(m):
